@@ -186,9 +186,9 @@ func (b *U32BitTip) getNAsU32(n int, reverse bool) []uint32 {
 	var s = make([]uint32, n)
 	var iterN int
 	if reverse {
-		iterN = b.IterAsU32(s, 0, n)
-	} else {
 		iterN = b.RIterAsU32(s, 0, n)
+	} else {
+		iterN = b.IterAsU32(s, 0, n)
 	}
 	if iterN == 0 {
 		return nil
